@@ -304,6 +304,11 @@ func (w *sfWorld) callThroughListener(in *types.FetchNodeCredentialsRequest, o *
 		return
 	}
 	defer lw.Close()
+	w.fetchHandshake(lw, in, o)
+}
+
+// fetchHandshake presents the request to the given listener in a TLS handshake
+func (w *sfWorld) fetchHandshake(lw *world.LW, in *types.FetchNodeCredentialsRequest, o *sfOutcome) {
 	w.srv.rec.Reset()
 	now := time.Now()
 	self := world.MintSelfSigned(w.n.K, world.LeafSpec{SubjectKeyID: w.n.K.Pkix, DNSNames: []string{nodeenrollment.CommonDnsName}, NotBefore: now.Add(-5 * time.Minute), NotAfter: now.Add(5 * time.Minute), EKU: []x509.ExtKeyUsage{x509.ExtKeyUsageClientAuth}})
@@ -338,6 +343,65 @@ func (w *sfWorld) callThroughListener(in *types.FetchNodeCredentialsRequest, o *
 		if b, derr := base64.RawStdEncoding.DecodeString(pcs[0].Subject.CommonName); derr == nil {
 			resp := new(types.FetchNodeCredentialsResponse)
 			o.issued = proto.Unmarshal(b, resp) == nil && len(resp.EncryptedNodeCredentials) > 0
+		}
+	}
+}
+
+// sfRunListenerRepeats: one listener serves an honest, authorized fetch handshake; the same bundle is then
+// presented to that same listener again with a signature that does not verify. What a listener remembers of
+// requests it has served must not stand in for the signature check.
+func sfRunListenerRepeats(c *engine.Ctx, replica int) {
+	r := c.R
+	w, err := sfNewWorld(sfListener)
+	if err != nil {
+		sfPrepareFailed(c, sfCase{Kind: "listener-repeat", Target: sfListener, Replica: replica}, err)
+		return
+	}
+	defer w.srv.s.Close()
+	lw, err := world.NewLW(w.srv.s, world.LWCfg{})
+	if err != nil {
+		r.Broken("sigfresh: listener: " + err.Error())
+		return
+	}
+	defer lw.Close()
+	var first sfOutcome
+	first.panicV, first.stack = engine.Guard(func() { w.fetchHandshake(lw, sfClone(w.base), &first) })
+	sc := sfCase{Kind: "listener-repeat", Target: sfListener, Replica: replica, Part: "signature"}
+	if first.panicV != nil || !first.issued {
+		r.Violation("in-window-request-rejected", fmt.Sprintf("the listener did not serve an honest, authorized fetch handshake (err=%v)", first.err), sfWitness(sc, w, w.base))
+		return
+	}
+	r.Count("listener_served_then_repeated", 1)
+	rng := c.Rng(fmt.Sprintf("sigfresh/listener-repeat/%d", replica))
+	for k := 0; k < 12; k++ {
+		req := sfClone(w.base)
+		var what string
+		switch k % 4 {
+		case 0:
+			i := rng.Intn(len(req.BundleSignature) * 8)
+			req.BundleSignature[i/8] ^= 1 << (i % 8)
+			what = fmt.Sprintf("signature bit %d flipped", i)
+		case 1:
+			req.BundleSignature = req.BundleSignature[:rng.Intn(len(req.BundleSignature))]
+			what = fmt.Sprintf("signature truncated to %d bytes", len(req.BundleSignature))
+		case 2:
+			req.BundleSignature = world.RandBytes(64)
+			what = "random signature"
+		default:
+			req.BundleSignature = ed25519.Sign(world.NewKeys().Priv, req.Bundle)
+			what = "signature by another key"
+		}
+		sc.Mut, sc.Index = what, k
+		var o sfOutcome
+		o.panicV, o.stack = engine.Guard(func() { w.fetchHandshake(lw, req, &o) })
+		r.Eval(engine.J(sc), true)
+		switch {
+		case o.panicV != nil:
+			r.Violation("panic:"+engine.LibraryFrame(o.stack), fmt.Sprintf("the listener panicked on a repeated bundle with %s: %v", what, o.panicV), sfWitness(sc, w, req))
+		case o.err == nil:
+			r.Violation("accepted-after-mutation:signature:repeated-at-one-listener", fmt.Sprintf("a listener that had served this bundle before processed it again with %s (credentials issued: %v)", what, o.issued), sfWitness(sc, w, req))
+		default:
+			r.Count("listener_repeats_rejected", 1)
 		}
 	}
 }
@@ -1064,6 +1128,11 @@ func runSigFresh(c *engine.Ctx) engine.Result {
 	engine.ForEach(len(jobs), engine.Workers(), func(i int) { sfRunWorld(c, jobs[i].target, jobs[i].replica, nsplice) })
 	r.Sample(sfCase{Kind: "mutation", Target: sfFetchNodeLed, Part: "bundle", Mut: "bitflip", Index: 77})
 	r.Sample(sfCase{Kind: "resigned", Target: sfAuthNodeLed, Part: "bundle", Mut: sfResignedList[3].name})
+
+	// the same bundle a second time at one listener, with signatures that do not verify
+	nrep := c.Pick(4, 40)
+	engine.ForEach(nrep, engine.Workers(), func(i int) { sfRunListenerRepeats(c, i) })
+	r.Require("listener_repeats_rejected", int64(nrep*8))
 
 	// ---- phase 3: windows ---------------------------------------------------------
 	pool, err := sfNewPool(engine.Workers())
